@@ -4,6 +4,11 @@ NOTES = ("All checks run /venv/bin/python on bitstring imported from /repo's wor
          "known_findings.json lists genuine defects (open: reported as KNOWN-FINDING; fixed: suppress nothing).")
 NOT_APPLICABLE = {}
 CHECKS = {
+ 'C06': dict(
+    text="Explicit-state breadth-first search over stream-operation histories on one real ConstBitStream/BitStream: from every root (class x content x pos, two construction routes) the full event menu (reads/peeks with every token kind and integer counts incl. 0, negative and one past the end, readlist/peeklist forms incl. stretchy tokens and keyword lengths, seeks via pos/bitpos/bytepos/bytealign, find/rfind/readto, every BitStream mutator with and without explicit position, property assignments, every operation returning a new stream, ==/hash against a twin) is applied at depth 1-2 and reduced menus deeper, with ((bits,pos), hidden fingerprint) deduplication; each transition is replayed from the root and value, content and pos are compared with a (bits,pos) reference machine; 0 <= pos <= len is checked after every event.",
+    design_ref="DESIGN.md section 4 C06",
+    note="Trusts bsmc/models/stream.py (+ mut.py, golomb.py). Accept sets are widened only where the statement is silent (pos after unlisted operations: unchanged-if-valid or 0). Content capped at 12 bits (40 for byte-structured roots).",
+    technique="explicit-state BFS over operation histories with state deduplication, replay-from-root, lock-step reference machine"),
  'C03': dict(
     text="Explicit-state breadth-first search over mutator histories on one real BitArray/BitStream: from every root (class x content x construction route) the full event menu (~700 events derived from the current length: every mutator, positions in/at/beyond the ends, negative indices, steps, empty and self operands, range/list/generator positions) is applied at depth 1, reduced menus deeper, with (bits, hidden-state fingerprint) deduplication; every transition is replayed from the root on fresh objects and its return value and complete post-content are compared with a list-of-bits reference model, which implies the frame condition.",
     design_ref="DESIGN.md section 4 C03",
